@@ -37,9 +37,14 @@ def ncf2wind(ncffile, outpath, tflag='TFLAG'):
         d = np.array(d, ndmin=1).astype('>i')
         d = (d % (d // 100000 * 100000)).astype('>i')
         lstag = ncffile.LSTAGGER
-        buf = np.array([12], dtype='>i').tobytes()
-        outfile.write(buf + t.tobytes() + d.tobytes() +
-                      lstag.tobytes() + buf)
+        if lstag != lstag:
+            # the reader presents nan for files without a stagger flag
+            buf = np.array([8], dtype='>i').tobytes()
+            outfile.write(buf + t.tobytes() + d.tobytes() + buf)
+        else:
+            buf = np.array([12], dtype='>i').tobytes()
+            outfile.write(buf + t.tobytes() + d.tobytes() +
+                          np.array(lstag).astype('>i').tobytes() + buf)
         for zi in range(nzcl):
             for varkey in varkeys:
                 vals = ncffile.variables[varkey][di, zi].astype('>f')
